@@ -1,9 +1,10 @@
 --------------------------- MODULE MqttTopics_Gen ---------------------------
 (* Behaviour generator for C14: the contract of MqttTopics plus `out`, the JSON description of   *)
 (* the step just taken and of what the contract routes every probe topic to afterwards.          *)
-(* Rejected SUBSCRIBE packets are generated with a single filter only (deterministic outcome);   *)
-(* rejected multi-filter packets are exercised by trace validation, where TLC resolves the        *)
-(* contract's freedom.  The clients of Persistent use cleanSession=false: their connection can drop  *)
+(* Rejected SUBSCRIBE packets, and UNSUBSCRIBE packets with a malformed filter, are generated    *)
+(* with a single filter only (deterministic outcome); multi-filter packets that mix well-formed   *)
+(* and malformed filters are exercised by trace validation, where TLC resolves the contract's      *)
+(* freedom.  The clients of Persistent use cleanSession=false: their connection can drop  *)
 (* and come back with the session resumed (Resume), after which every probe is looked up again.      *)
 EXTENDS MqttTopics, Json, SequencesExt
 
@@ -25,7 +26,10 @@ GOp   == /\ ph = "op" /\ ph' = "emit" /\ out' = "-" /\ UNCHANGED kind
                  /\ \E fs \in FilterSeqs : \E qs \in [1..Len(fs) -> QoS] :
                      /\ (Len(fs) > 1 => ValidIdx(fs) = 1..Len(fs))
                      /\ Subscribe(c, fs, qs, IF ValidIdx(fs) = 1..Len(fs) THEN 1..Len(fs) ELSE {})
-              \/ kind \in 5..6 /\ \E fs \in FilterSeqs : Unsubscribe(c, fs)
+              \/ /\ kind \in 5..6
+                 /\ \E fs \in FilterSeqs :
+                     /\ (Len(fs) > 1 => ValidIdx(fs) = 1..Len(fs))
+                     /\ Unsubscribe(c, fs, IF ValidIdx(fs) = 1..Len(fs) THEN 1..Len(fs) ELSE {})
               \/ kind = 7 /\ Disconnect(c)
               \/ kind = 7 /\ Takeover(c)
               \/ kind = 8 /\ Resume(c)
